@@ -432,6 +432,39 @@ def subcases(rel, signs):
     out = []
     if pred in ("eq", "ne"):
         done = False
+        # c*x*y*... == +-c with integer symbols: every factor is 1 or -1 (how a unit stride made of two factors is tested)
+        nz = [(mn, co) for mn, co in d.t.items() if mn != ()]
+        k0 = d.t.get((), 0)
+        if len(nz) == 1 and k0 != 0 and all(e_ == 1 for sy_, e_ in nz[0][0]) and all(_IDENT.match(sy_) for sy_, e_ in nz[0][0]) and abs(k0) == abs(nz[0][1]) and len(nz[0][0]) <= 4:
+            import itertools
+            syms_ = [sy_ for sy_, e_ in nz[0][0]]
+            target = -k0 / nz[0][1]          # product of the symbols
+            for vals in itertools.product((1, -1), repeat=len(syms_)):
+                pr = 1
+                for v_ in vals:
+                    pr *= v_
+                if pr != target:
+                    continue
+                if any(meet(signs.get(sy_, ANY), POS if v_ > 0 else NEG) is None for sy_, v_ in zip(syms_, vals)):
+                    continue
+                sub_ = {sy_: P.const(v_) for sy_, v_ in zip(syms_, vals)}
+                s2 = {k_: v_ for k_, v_ in signs.items() if k_ != "__facts"}
+                for q_, c_ in (signs.get("__facts") or []):
+                    if s2 is None:
+                        break
+                    q2 = q_.subst(sub_)
+                    if q2.is_const():
+                        v2 = q2.const_value()
+                        if not {POS: v2 > 0, NEG: v2 < 0, ZERO: v2 == 0, NONNEG: v2 >= 0, NONPOS: v2 <= 0, NONZERO: v2 != 0}.get(c_, True):
+                            s2 = None
+                    else:
+                        s2 = _refine(s2, q2, c_)
+                if s2 is not None:
+                    out.append((" & ".join("%s=%d" % (sy_, v_) for sy_, v_ in zip(syms_, vals)), sub_, s2))
+            s3 = _refine(signs, d, NONZERO)
+            if s3 is not None:
+                out.append(("%r!=0" % d, None, s3))
+            return out
         # a single monomial c*x*y*...: it vanishes exactly when one of its factors does; when all factors but one are known to be non-zero, that one is zero
         if len(d.t) == 1 and () not in d.t:
             (mn, co), = d.t.items()
@@ -722,6 +755,16 @@ class ViewRun:
             return
         wit = concrete_witness(got, want, signs, common.seed_from_env())
         if wit is None:
+            # sampling found no member (a sub-case with equalities between products is thin): every small member of the (sub-)case, evaluated through the IR
+            rr = getattr(self, "rerun", None)
+            if rr is not None and off is not None:
+                ev_, fn_, args_, signs_ = rr
+                w2 = concrete_disagreement(ev_, fn_, args_, signs_, {off: want}, common.seed_from_env(), tries=300)
+                if w2 is not None:
+                    rep.violated(key, fam, "%s: library computes %r, specification prescribes %r; on the member %s of the case class the compiled code gives %s, the "
+                                 "specification %s" % (key, got, want, w2["assignment"], w2["got"], w2["want"]),
+                                 dict(got=repr(got)[:400], want=repr(want)[:400], witness=w2, operation=op.expr if op else None, D=D))
+                    return
             rep.inconclusive(key, fam, "normal forms differ (got %r, want %r) but no in-domain integer witness found" % (got, want))
             return
         rep.violated(key, fam, "%s: library computes %r, specification prescribes %r" % (key, got, want),
